@@ -70,7 +70,8 @@ pub mod serde_json {
     { unimplemented!() }
     #[verifier::external_body]
     pub fn to_value<T: crate::serde::Serialize>(value: T) -> (r: Result<Value, Error>)
-        ensures r is Ok ==> r->Ok_0 == value.json()
+        // ASSUMED: serialising a claim value into a JSON tree does not fail
+        ensures r is Ok, r->Ok_0 == value.json()
     { unimplemented!() }
     }
 }
